@@ -384,6 +384,7 @@ def pre(ctx):
     for k in range(4, 41):
         lengths += [2 ** k - 1, 2 ** k, 2 ** k + 1]
     made = {}
+    abis = range(0, 8)
 
     def put(key, obj):
         made[key] = obj
@@ -407,12 +408,33 @@ def pre(ctx):
             for args, aname in (((), '()'), ((T,), '(T)'), ((TP,), '(T*)'), ((T, T), '(T,T)'), ((TP, T), '(T*,T)')):
                 for ell in (False, True):
                     put(('func', rname, aname.replace('T', name), ell), B.new_function_type(args, res, ell))
+                    # the calling convention is part of the C type: every ABI number libffi accepts here
+                    # (x86-64: unix64, win64, gnuw64) gives its own ctype, distinct from the variadic /
+                    # non-variadic twin under every other ABI
+                    for abi in abis:
+                        try:
+                            f = B.new_function_type(args, res, ell, abi)
+                        except SystemError:     # "libffi failed to build this function type"
+                            continue
+                        if abi == B.FFI_DEFAULT_ABI:
+                            if f is not made[('func', rname, aname.replace('T', name), ell)]:
+                                ctx.fail('function type %r built with the explicit default ABI is another object '
+                                         'than the one built without abi argument' % (f,), sweep=True)
+                            continue
+                        put(('func', rname, aname.replace('T', name), ell, abi), f)
     by_id, by_name = {}, {}
     for key, obj in made.items():
         other = by_id.setdefault(id(obj), key)
         if other != key:
             ctx.fail('one ctype object %r stands for two different C types: %r and %r' % (obj, other, key),
                      sweep=True)
+        if key[0] == 'func':
+            want = (key[3], key[4] if len(key) > 4 else B.FFI_DEFAULT_ABI)
+            if (obj.ellipsis, obj.abi) != want:
+                ctx.fail('function type %r requested with (ellipsis, abi) = %r reports %r'
+                         % (key, want, (obj.ellipsis, obj.abi)), sweep=True)
+        if len(key) > 4:        # a non-default ABI does not show in the name on this platform
+            continue
         other = by_name.setdefault(obj.cname, key)
         if other != key:
             ctx.fail('two different C types have the same name %r: %r and %r' % (obj.cname, other, key), sweep=True)
